@@ -13,6 +13,8 @@ pub fn plan(o: &Opts) -> Vec<GroupSpec> {
    match o.prop.as_str() {
       "C01" => plan_c01(o),
       "C04" => plan_simple(o, "C04", 120, 1500, |r| { let l = vcore::rng::Src::chance(r, 30); gen::gen_strat(r, &GenCfg::core(), l) }),
+      "C02" => plan_par(o, "C02", 72, 720, true, |r| gen::gen_any(r, &GenCfg::core())),
+      "C05" => plan_par(o, "C05", 96, 960, false, |r| gen::gen_rederive(r, &GenCfg::core())),
       "C03" => plan_simple(o, "C03", 120, 1500, |r| vcore::gen_lat::gen_lattice(r, &GenCfg::core())),
       other => panic!("no plan for property {other}"),
    }
@@ -45,4 +47,41 @@ fn plan_simple(o: &Opts, prop: &str, quick: usize, thorough: usize, f: impl Fn(&
          }
       })
       .collect()
+}
+
+/// serial reference + parallel variants of the same program
+fn plan_par(o: &Opts, prop: &str, quick: usize, thorough: usize, all_forms: bool, f: impl Fn(&mut crate::PtRng) -> vcore::ast::Program) -> Vec<GroupSpec> {
+   let n = n_programs(o, quick, thorough);
+   let mut out = vec![];
+   let mut i = 0u64;
+   while out.len() < n {
+      let mut r = rng_for(prop, o.seed, i);
+      i += 1;
+      let prog = f(&mut r);
+      if let Some(kf) = gen::par_rejects(&prog) {
+         crate::count_excluded(kf);
+         continue;
+      }
+      let base = format!("{prop}-s{}-{}", o.seed, i - 1);
+      let mut members =
+         vec![MemberSpec { prog: prog.clone(), opts: PrintOpts::plain(Kind::Ascent), meta: meta(&base, "ser", Kind::Ascent, true) }];
+      members.push(MemberSpec { prog: prog.clone(), opts: PrintOpts::plain(Kind::AscentPar), meta: meta(&base, "par", Kind::AscentPar, false) });
+      if all_forms {
+         let mut opts = PrintOpts::plain(Kind::AscentPar);
+         opts.attrs = vec!["inter_rule_parallelism".into()];
+         let mut m = meta(&base, "par_inter_rule", Kind::AscentPar, false);
+         m.attrs = opts.attrs.clone();
+         members.push(MemberSpec { prog: prog.clone(), opts, meta: m });
+         let no_nullary = prog.rels.iter().all(|d| !d.cols.is_empty());
+         if i % 3 == 0 && no_nullary {
+            members.push(MemberSpec {
+               prog: prog.clone(),
+               opts: PrintOpts::plain(Kind::AscentRunPar),
+               meta: meta(&base, "run_par", Kind::AscentRunPar, false),
+            });
+         }
+      }
+      out.push(GroupSpec { members });
+   }
+   out
 }
